@@ -219,7 +219,7 @@ def stop_base(rng: random.Random, i: int) -> dict:
     """Base scenarios for stop()/cancel placement: backlog, sleeping handlers, inline awaits, sync-busy
     handlers, handlers that dispatch late (during stop()'s grace period), a second bus whose handler
     awaits a child afterwards."""
-    c = cfg(nb=(1, 3), levels=3, p_lazy=0.2, p_raise=0.03, p_busy=0.1, prog_len=(1, 4), handlers_per=(1, 1, 2), n_actors=(2, 3), actor_ops=(2, 6), actor_await=0.3, jitter=False, p_wild=0.05)
+    c = cfg(nb=(1, 3), levels=3, p_lazy=0.2, p_raise=0.03, p_busy=0.1, prog_len=(1, 4), handlers_per=(1, 1, 2), n_actors=(2, 3), actor_ops=(2, 6), actor_await=0.3, jitter=False, p_wild=0.05, p_par=0.3)
     sc = random_scenario(rng, c)
     if len(sc['buses']) == 3 and rng.random() < 0.7:
         # a long in-handler await on bus 0 while the other two buses each receive work: their run loops dequeue it and
@@ -457,3 +457,36 @@ def error_derive(sc: dict, t: float, rng: random.Random):
         if h.get('raiser'):
             h['prog'][0][1] = t
     yield sc
+
+
+def idle_base(rng: random.Random, i: int) -> dict:
+    """Programs for placing a racing wait_until_idle() at every instant: cross-bus nested awaits, small history limits
+    (in-flight events evicted while still running), errors, a rejected burst."""
+    nb = rng.choice([2, 2, 3])
+    buses = [{'name': f'B{k}', 'par': rng.random() < 0.15, 'lazy': rng.random() < 0.2, 'hist': rng.choice([1, 1, 2, 3, 5, None])} for k in range(nb)]
+    hs = []
+    tb = 1
+    hs.append({'bus': 0, 'pat': 0, 'kind': 'async', 'prog': [['disp', 1, tb, 'await', rng.choice([None, 0, 0.05]), {}], ['sleep', rng.choice(SHORT)]]})
+    hs.append({'bus': tb, 'pat': 1, 'kind': 'async', 'prog': [['disp', 2, tb, rng.choice(['fire', 'await']), None, {}], ['sleep', rng.choice([0.15, 0.3, 1.0])]] + ([['raise', rng.choice(EXCS)]] if rng.random() < 0.2 else [])})
+    hs.append({'bus': tb, 'pat': 2, 'kind': rng.choice(['async', 'sync']), 'prog': [['disp', 3, rng.randrange(nb), 'fire', None, {}]] if rng.random() < 0.5 else []})
+    for b in range(nb):
+        hs.append({'bus': b, 'pat': 3, 'kind': 'async', 'prog': [['sleep', rng.choice(SHORT)]]})
+        if rng.random() < 0.4:
+            hs.append({'bus': b, 'pat': rng.choice([1, 2]), 'kind': 'async', 'prog': [['sleep', rng.choice(SHORT)]]})
+    actors = [[['disp', 0, 0, rng.choice(['await', 'fire']), rng.choice(SHORT), {}], ['disp', 0, 0, 'fire', 0, {}], ['await', 0]]]
+    if rng.random() < 0.6:
+        actors.append([['sleep', rng.choice(SHORT)], ['disp', rng.choice([1, 2, 3]), rng.randrange(nb), 'fire', rng.choice(SHORT), {}], ['disp', 3, tb, 'fire', 0, {}]])
+    return {'seed': rng.randrange(1 << 30), 'buses': buses, 'fwd': [], 'handlers': hs, 'actors': actors}
+
+
+def idle_derive(sc: dict, t: float, rng: random.Random):
+    nb = len(sc['buses'])
+    b = rng.choice([1, 1, rng.randrange(nb)])
+    sc['actors'] = sc['actors'] + [[['sleep', t], ['idle', b, None]]]
+    yield sc
+
+
+def history_deep_scenario(rng: random.Random, i: int) -> dict:
+    """Long fire-and-forget chains across buses with tiny history limits: completion has to climb through ancestors
+    that were evicted (while started, and after their own handlers returned) from every history."""
+    return random_scenario(rng, cfg(hist=[1, 1, 2, 3], nb=(1, 3), levels=6, modes=['fire', 'fire', 'fire', 'await', 'later'], prog_len=(1, 3), handlers_per=(1, 1, 2), actor_ops=(2, 6), p_idle=0.05, p_wild=0.05))
